@@ -32,6 +32,21 @@ def check(run):
     wd = os.path.join(run.scratch, "keys")
     os.makedirs(wd, exist_ok=True)
     msgs = [b"", b"x", os.urandom(0) + b"msg \x00\xff" * 40]
+    # key-file base names: the files are <name>.pri / <name>.pub whatever the name looks like; for every name with a dot a decoy pair
+    # under the shorter stem exists already (holding another key)
+    os.makedirs(os.path.join(wd, "sub.d"), exist_ok=True)
+    NAMES = ["k%d" % os.getpid(), "root.2024", "my.key", "v1.2.3", "k.pri", "k.pub", "archive.tar.gz", ".hidden", "name with space", "sub.d/k", "sub.d/k.x",
+             "ünï.ç", "trailing.", "UPPER.PRI"]
+    decoy = crypto.seed_for(4242, run.seed)
+    for nm in NAMES:
+        stem = os.path.join(wd, nm)
+        while "." in os.path.basename(stem).strip("."):
+            stem = os.path.join(os.path.dirname(stem), os.path.basename(stem).rsplit(".", 1)[0])
+            for ext, data in ((".pri", decoy), (".pub", crypto.ed25519_ref_public(decoy))):
+                if not os.path.exists(stem + ext):
+                    with open(stem + ext, "wb") as f:
+                        f.write(data)
+    name_i = [0]
 
     def viol(what, **kw):
         run.violation(what, {"kind": "keys", **kw})
@@ -68,7 +83,8 @@ def check(run):
                     elif fn == "PublicKey.from_hex":
                         cur_rep, cur = "pub_obj", c.PublicKey.from_hex(cur)
                     elif fn == "write_key_files":
-                        name = os.path.join(wd, "k%d" % os.getpid())
+                        name_i[0] += 1
+                        name = os.path.join(wd, NAMES[name_i[0] % len(NAMES)])
                         with open(name + ".pri", "wb") as f:
                             f.write(c.PrivateKey.to_bytes(cur))
                         with open(name + ".pub", "wb") as f:
@@ -154,7 +170,7 @@ def check(run):
             viol("a private key is not equivalent to its own hex round trip")
     # generated keys and key files
     for i in range(5 if quick else 40):
-        name = os.path.join(wd, f"gen{i}")
+        name = os.path.join(wd, f"gen{i}" if i < 2 else f"gen{i}-" + os.path.basename(NAMES[i % len(NAMES)]))
         if i % 2:       # the name was used before, for key files in another (longer) format
             with open(name + ".pri", "wb") as f:
                 f.write(os.urandom(32).hex().encode() + b"\n")
